@@ -41,7 +41,12 @@ def has(box, k):
 def at(box, k):
     box = unflex(box)
     if isinstance(box, dict):
-        return box.get(k, '')
+        if isinstance(k, str):
+            return box.get(k, '')
+        acc = ''
+        for x, v in box.items():
+            acc = If(Eq(k, x), v, acc)
+        return acc
     return box.m.at(k)
 
 
